@@ -50,6 +50,37 @@ pub const STMT_MENU: &[&str] = &[
     "x == (y,)", "y[0] == z", "z == ((x,),)", "x == z", "z := y", "z = (x,)", "y == [z]", "z.f == x", "x = z.f", "z == fn a -> x end",
 ];
 
+/// unification puzzles: three independently inferred parameters and a sequence of equalities between them and
+/// one-level constructions of them; every order of merging type variables, including the cyclic ones, within the bound
+const UNIFY_VARS: [&str; 3] = ["a", "b", "p"];
+const UNIFY_FORMS: [(&str, &str); 6] = [("", " == {}"), ("", " == ({},)"), ("[0]", " == {}"), ("", " == (({},),)"), ("", " == [{}]"), (".f", " == {}")];
+
+fn unify_atoms(forms: usize) -> Vec<String> {
+    let mut v = Vec::new();
+    for (fi, (lhs_suffix, rhs)) in UNIFY_FORMS.iter().take(forms).enumerate() {
+        for x in UNIFY_VARS {
+            for y in UNIFY_VARS {
+                if fi == 0 && x == y {
+                    continue;
+                }
+                v.push(format!("{}{}{}", x, lhs_suffix, rhs.replace("{}", y)));
+            }
+        }
+    }
+    v
+}
+
+fn unify_program(seq: &[&String]) -> String {
+    let mut s = String::from("print: fn *X -> void : external\nf :: fn a, b, p do\n");
+    for st in seq {
+        s.push_str("    ");
+        s.push_str(st);
+        s.push('\n');
+    }
+    s.push_str("end\nstart :: fn do\n    print(1)\nend\n");
+    s
+}
+
 fn stmt_program(seq: &[&str]) -> String {
     let mut s = String::from("P :: blob(*T) { a: *T }\nE :: enum(*T)\n    A *T,\n    B,\nend\nf :: fn y do\n    x := y\n");
     for st in seq {
@@ -187,6 +218,7 @@ pub struct Space {
     ladders: Vec<(String, String)>,
     nests: Vec<(String, String)>,
     stmt_len: usize,
+    unify: Vec<String>,
     thorough: bool,
 }
 
@@ -313,7 +345,10 @@ impl Space {
         let stmt_len = if thorough { 4 } else { 2 };
         let nm = STMT_MENU.len() as u64;
         parts.push(("stmts".to_string(), (1..=stmt_len as u32).map(|l| nm.pow(l)).sum()));
-        Space { parts, seeds, seed_edits, projects, ladders, nests, stmt_len, thorough }
+        let unify = unify_atoms(if thorough { 6 } else { 4 });
+        let nu = unify.len() as u64;
+        parts.push(("unify".to_string(), (1..=4u32).map(|l| nu.pow(l)).sum()));
+        Space { parts, seeds, seed_edits, projects, ladders, nests, stmt_len, unify, thorough }
     }
 
     pub fn total(&self) -> u64 {
@@ -422,6 +457,21 @@ impl Space {
             if name == "nests" {
                 let (id, text) = &self.nests[i as usize];
                 return (id.clone(), one_file(text), true);
+            }
+            if name == "unify" {
+                let nu = self.unify.len() as u64;
+                let mut len = 1u32;
+                let mut k = i;
+                while k >= nu.pow(len) {
+                    k -= nu.pow(len);
+                    len += 1;
+                }
+                let mut seq = Vec::new();
+                for _ in 0..len {
+                    seq.push(&self.unify[(k % nu) as usize]);
+                    k /= nu;
+                }
+                return (format!("unify {:?}", seq), one_file(&unify_program(&seq)), true);
             }
             if name == "stmts" {
                 let nm = STMT_MENU.len() as u64;
